@@ -356,6 +356,28 @@ func c09All(env *core.Env, c *fmtCase) core.Verdict {
 		contents["regex-assembly/900100.ra"], contents["regex-assembly/include/zz-upper.ra"] = tree["regex-assembly/900100.ra"], tree["regex-assembly/include/zz-upper.ra"]
 		names = append(names, "regex-assembly/900100.ra", "regex-assembly/include/zz-upper.ra")
 	}
+	// two files with the same base name in different directories, at most one of them not canonical: the verdict on
+	// one is not the verdict on the other
+	if rng.Intn(3) == 0 {
+		body := fmtGen(rng, "structured").Content
+		dirtyOne := rng.Intn(3) // 0: include/ dirty, 1: exclude/ dirty, 2: both canonical
+		for k, n := range []string{"regex-assembly/include/words.ra", "regex-assembly/exclude/words.ra"} {
+			c := fmtModel(body)
+			if k == dirtyOne && fmtModel("      "+body) != "      "+body {
+				c = "      " + body
+				anyDirty = true
+			}
+			if k == 0 {
+				c = fmtModel(strings.Repeat("bigword\n", 3000)) // the canonical one is much longer, so it finishes last
+				if dirtyOne == 0 {
+					c = "     " + strings.Repeat("bigword\n", 3000)
+					anyDirty = true
+				}
+			}
+			tree[n], contents[n] = c, c
+			names = append(names, n)
+		}
+	}
 	// one more file may be refused by the formatter (an end marker that closes no block, with lines above it): the
 	// command fails, that file stays as it is, and every other file is formatted as if it were not there
 	refused := ""
@@ -610,6 +632,16 @@ func c10All(env *core.Env, c *fmtCase) core.Verdict {
 		tree[n] = fmtGen(rng, "structured").Content
 		if i == rng.Intn(len(names)) {
 			tree[n] = c.Content
+		}
+	}
+	if rng.Intn(4) == 0 {
+		// a tree of the size of a real one (files of very different lengths): no file ends up with another file's lines
+		for k := 0; k < 90; k++ {
+			var sb strings.Builder
+			for e, ne := 0, 1+rng.Intn(4)*rng.Intn(60); e <= ne; e++ {
+				fmt.Fprintf(&sb, "%sfile%03dentry%03d\n", core.Pick(rng, "", "  ", "\t"), k, e)
+			}
+			tree[fmt.Sprintf("regex-assembly/%s9%05d.ra", core.Pick(rng, "", "", "include/", "exclude/"), k)] = sb.String()
 		}
 	}
 	refused := ""
